@@ -16,11 +16,15 @@ static inline void vfh_mpz(mpz_ptr r, long lo, long hi) { mpz_set_si(r, vfh_rang
 #define H_MAXDRAWS 6
 #endif
 static unsigned vfh_draws = 0; static unsigned long vfh_lastcoin = 0;
+// a harness may fix the next coin(s) to concrete values (slices): consumed before symbolic draws
+static long vfh_fixed[4] = { -1, -1, -1, -1 }; static unsigned vfh_nfixed = 0, vfh_fixed_used = 0;
+static inline void vfh_fix_next(long v) { vfh_fixed[vfh_nfixed++] = v; }
 static inline void vfh_coin_mod(mpz_ptr r, mpz_srcptr m) {
   vf_assume(++vfh_draws <= H_MAXDRAWS);
   unsigned long mm = mpz_get_ui(m);
   vf_assume(mpz_sgn(m) > 0);
-  vfh_lastcoin = vf_nondet_below(mm);
+  if (vfh_fixed_used < vfh_nfixed) { vfh_lastcoin = (unsigned long)vfh_fixed[vfh_fixed_used++] % mm; }
+  else vfh_lastcoin = vf_nondet_below(mm);
   mpz_set_ui(r, vfh_lastcoin);
 }
 static inline void vfh_coin_bits(mpz_ptr r, unsigned long bits) {
